@@ -52,7 +52,7 @@ def expected_fields(dev, r, family):
         exp["power_consumption"] = i_ite(on, r["watts"], 0)
         exp["remaining_time"] = ("onoff", on, iso_units(r["remaining_s"]), "00:00:00")
         exp["auto_shutdown"] = iso_units(r["auto_s"])
-        exp["electric_current"] = ("onoff", on, Opaque("Amps", [r["watts"]], pytype="float"), 0.0)
+        exp["electric_current"] = ("onoff", on, ("amps", r["watts"]), 0.0)
         exp["device_state"] = ("enum2", on, dev.DeviceState.ON, dev.DeviceState.OFF)
     if family == "runner":
         exp["position"] = r["position"]
@@ -69,11 +69,29 @@ def expected_fields(dev, r, family):
     return exp
 
 
+def amps_ok(actual, w):
+    """actual is watts/220 to one decimal: k/10 with |22k - w| <= 11 (either neighbour at an exact tie)"""
+    if isinstance(actual, Opaque) and actual.okind == "Amps":
+        return i_eq(actual.args[0], w)
+    if isinstance(actual, FL.FQuot) and actual.d == 10:
+        d = actual.n * 22 - w
+        return b_and(d <= 11, d >= -11)
+    if isinstance(actual, (int, float)) and not isinstance(actual, bool):
+        k = round(actual * 10)
+        if abs(k / 10 - actual) > 1e-9:
+            return False
+        d = k * 22 - w
+        return b_and(d <= 11, d >= -11)
+    return False
+
+
 def field_ok(actual, e):
     if isinstance(e, tuple):
+        if e[0] == "amps":
+            return amps_ok(actual, e[1])
         if e[0] == "onoff":
             _, on, von, voff = e
-            return b_and(b_implies(on, sym_eq(actual, von)), b_implies(b_not(on), sym_eq(actual, voff)))
+            return b_and(b_implies(on, field_ok(actual, von)), b_implies(b_not(on), field_ok(actual, voff)))
         if e[0] == "enum2":
             _, c, a, b = e
             return b_and(b_implies(c, actual is a), b_implies(b_not(c), actual is b))
